@@ -224,17 +224,21 @@ impl Cqueue {
     // when the select coroutine is done, check the panic status
     // if it's panicked, re throw the panic data
     fn check_panic(&self, id: usize) {
-        if self.is_panicking.load(Ordering::Relaxed) {
-            return;
-        }
-
         use generator::Error;
         // don't hold the lock while re-throwing the panic: that would poison it
         // and make the drop of the cqueue panic again during the unwinding
         let handle = self.selectors.lock().unwrap()[id]
             .take()
             .expect("join handler not set");
-        match handle.join() {
+        // the select coroutine is joined in any case: its Done event comes from the
+        // drop of its EventSender, what it captured is released after that, and it
+        // may borrow from the frame of the scope
+        let ret = handle.join();
+        // only the first panic is passed on
+        if self.is_panicking.load(Ordering::Relaxed) {
+            return;
+        }
+        match ret {
             Ok(_) => {}
             Err(panic) => {
                 if let Some(err) = panic.downcast_ref::<Error>() {
